@@ -311,3 +311,175 @@ Example seed4_lost_and_doubled :
   sb_runs [900] (mkSBS (acinit 8 10) [] [] []) seed4_history =
   [[]; []; []; []; [(1, 900)]; [(3, 3); (4, 4)]; [(4, 4)]].
 Proof. vm_compute. reflexivity. Qed.
+
+(* ------------------------------------------------------------------ *)
+(* Seeded change C12-10 (seeded/C12-10, "make up for ticks the ticker dropped"): the run loop
+   keeps the VALUE of the last tick; a tick stamped two or more intervals later than the
+   previous one (than the wheel's creation for the first) advances the wheel
+   int(elapsed/interval) positions at once. *)
+From GZ Require Import C12.Ticker.
+From Coq Require Import Lia.
+
+Record s10_state := mkS10 { s10_last : Z; s10_wheel : astate }.
+
+Definition s10_catchup (i last now : Z) : Z :=
+  if 2 * i <=? now - last then (now - last) / i else 1.
+
+Fixpoint ticks_n (k : nat) (s : state) : state * fired :=
+  match k with
+  | O => (s, [])
+  | S k' => let '(s1, f1) := on_tick s in let '(s2, f2) := ticks_n k' s1 in (s2, f1 ++ f2)
+  end.
+
+Definition s10_step (p : s10_state) (o : sop) : s10_state * fired * res :=
+  match o with
+  | STick now =>
+    if aclosed (s10_wheel p) then (mkS10 now (s10_wheel p), [], RErrClosed)   (* not received *)
+    else let s := ast (s10_wheel p) in
+         let '(s', f) := ticks_n (Z.to_nat (s10_catchup (sint s) (s10_last p) now)) s in
+         (mkS10 now (mkA false s'), f, ROk)
+  | SCall a => let '(a', f, r) := astep (s10_wheel p) a in (mkS10 (s10_last p) a', f, r)
+  end.
+
+Fixpoint s10_run (p : s10_state) (ops : list sop) : list (fired * res) :=
+  match ops with
+  | [] => []
+  | o :: ops' => let '(p', f, r) := s10_step p o in (f, r) :: s10_run p' ops'
+  end.
+
+(* 4 slots, interval 1000, built at time 0.  A timer set for 3 intervals, then ONE tick stamped
+   5 intervals after the wheel was built: the timer fires at that first tick. *)
+Definition seed10_history : list sop :=
+  [SCall (ASet (Some 1) 5 3000); STick 5000; STick 6000; STick 7000].
+
+Theorem seed_c12_10_refuted :
+  exists n i created ops,
+    forallb (fun o => match erase o with ASet _ _ d | AMove _ d => i <=? d | _ => true end) ops = true /\
+    s10_run (mkS10 created (ainit n i)) ops <> srun (ainit n i) ops.
+Proof. exists 4, 1000, 0, seed10_history. split; [reflexivity|]. vm_compute. discriminate. Qed.
+
+Example seed10_fires_early :
+  map fst (s10_run (mkS10 0 (ainit 4 1000)) seed10_history) = [[]; [(1, 5)]; []; []] /\
+  map fst (srun (ainit 4 1000) seed10_history) = [[]; []; []; [(1, 5)]].
+Proof. vm_compute. split; reflexivity. Qed.
+
+(* why no test noticed: as long as consecutive stamps are less than two intervals apart
+   the seeded loop does exactly what the real one does *)
+Fixpoint stamps_close (i last : Z) (ops : list sop) : Prop :=
+  match ops with
+  | [] => True
+  | STick now :: ops' => now - last < 2 * i /\ stamps_close i now ops'
+  | SCall _ :: ops' => stamps_close i last ops'
+  end.
+
+Lemma move_far_sint s e d : sint (move_far s e d) = sint s.
+Proof. unfold move_far. destruct (_ <=? _); reflexivity. Qed.
+
+Lemma step_sint s o : sint (fst (step s o)) = sint s.
+Proof.
+  destruct o as [k v d|k d|k| |]; cbn [step fst].
+  - unfold set_task. destruct (lookup k (sents s)); [|reflexivity]. now rewrite move_far_sint.
+  - unfold move_task. destruct (lookup k (sents s)); [|reflexivity].
+    destruct (d <? sint s); cbn [fst]; [reflexivity|apply move_far_sint].
+  - reflexivity.
+  - unfold on_tick. destruct (scan _ _ _). reflexivity.
+  - reflexivity.
+Qed.
+
+Lemma astep_sint a c : sint (ast (fst (fst (astep a c)))) = sint (ast a).
+Proof.
+  assert (H : forall r, sint (ast (fst (fst (let '(s', f) := step (ast a) r in (mkA false s', f, ROk))))) = sint (ast a)).
+  { intros r. pose proof (step_sint (ast a) r) as H. destruct (step (ast a) r). exact H. }
+  destruct c as [k v d|k d|k| | |]; cbn [astep request].
+  - destruct k; [destruct (0 <? d)|]; try reflexivity; destruct (aclosed a); try reflexivity; apply H.
+  - destruct k; [destruct (0 <? d)|]; try reflexivity; destruct (aclosed a); try reflexivity; apply H.
+  - destruct k; try reflexivity; destruct (aclosed a); try reflexivity; apply H.
+  - destruct (aclosed a); try reflexivity; apply H.
+  - destruct (aclosed a); try reflexivity; apply H.
+  - destruct (aclosed a); reflexivity.
+Qed.
+
+Lemma s10_invisible_when_stamps_close ops : forall last a,
+  stamps_close (sint (ast a)) last ops ->
+  s10_run (mkS10 last a) ops = srun a ops.
+Proof.
+  induction ops as [|o ops IH]; intros last a H; [reflexivity|].
+  destruct o as [c|now]; cbn [s10_run s10_step srun erase stamps_close s10_wheel s10_last] in *; unfold sstep; cbn [erase].
+  - pose proof (astep_sint a c) as Hi. destruct (astep a c) as [[a' f] r]. cbn [fst] in Hi.
+    f_equal. apply IH. now rewrite Hi.
+  - destruct H as [Hc H]. destruct a as [cl s]. cbn [aclosed ast] in *.
+    unfold astep. cbn [request aclosed ast]. destruct cl.
+    + cbn [s10_wheel]. f_equal. now apply IH.
+    + unfold s10_catchup. destruct (Z.leb_spec (2 * sint s) (now - last)) as [Hle|_]; [lia|].
+      change (Z.to_nat 1) with 1%nat. cbn [ticks_n step].
+      pose proof (step_sint s OTick) as Hs. cbn [step] in Hs.
+      destruct (on_tick s) as [s1 f1]. cbn [fst] in Hs. rewrite app_nil_r. f_equal. apply IH.
+      cbn [ast]. now rewrite Hs.
+Qed.
+
+(* ------------------------------------------------------------------ *)
+(* Seeded change C12-6 (seeded/C12-6): SetTimer on a pending key that takes moveTask's
+   re-slotting branch (new delay shorter than the wait for the current slot) writes the new
+   value into the entry that has just been flagged removed: the timer fires once, at the
+   right tick, with the value set BEFORE. *)
+
+Definition seed6_step (s : state) (o : op) : state * fired :=
+  match o with
+  | OSet k v d =>
+    match lookup k (sents s) with
+    | Some e =>
+      let d' := Z.max d (sint s) in
+      if wait (sn s) (spos s) (epos e) <=? d' / sint s then step s o
+      else (move_far s e d', [])          (* re-slotted with the OLD value *)
+    | None => step s o
+    end
+  | _ => step s o
+  end.
+
+Fixpoint seed6_run (s : state) (ops : list op) : list fired :=
+  match ops with
+  | [] => []
+  | o :: ops' => let '(s', f) := seed6_step s o in f :: seed6_run s' ops'
+  end.
+
+Theorem seed_c12_6_refuted :
+  exists n i ops, seed6_run (init n i) ops <> sp_run i [] ops.
+Proof. exists 3, 10, [OSet 1 5 30; OSet 1 6 10; OTick]. vm_compute. discriminate. Qed.
+
+Example seed6_stale_value :
+  seed6_run (init 3 10) [OSet 1 5 30; OSet 1 6 10; OTick] = [[]; []; [(1, 5)]] /\
+  run (init 3 10) [OSet 1 5 30; OSet 1 6 10; OTick] = [[]; []; [(1, 6)]].
+Proof. vm_compute. split; reflexivity. Qed.
+
+(* ------------------------------------------------------------------ *)
+(* Seeded change C12-9 (seeded/C12-9): ONE recover around the whole batch of a tick instead of
+   one per timer: when the callback of a timer panics, the timers after it in that tick's
+   batch are never delivered.  (Values congruent to 999 modulo 1000 are the callbacks that
+   panic in the correspondence run.) *)
+
+Definition panics (v : Z) : bool := v mod 1000 =? 999.
+
+Fixpoint seed9_batch (b : fired) : fired :=
+  match b with
+  | [] => []
+  | x :: b' => if panics (snd x) then [x] else x :: seed9_batch b'
+  end.
+
+Fixpoint seed9_run (a : acstate) (ops : list aop) : list fired :=
+  match ops with
+  | [] => []
+  | o :: ops' =>
+    let '(a', f, _) := acstep a o in
+    (match o with ATick => seed9_batch f | _ => f end) :: seed9_run a' ops'
+  end.
+
+Theorem seed_c12_9_refuted :
+  exists n i ops,
+    ~ Permutation (concat (seed9_run (acinit n i) ops))
+                  (concat (map fst (asp_run i (false, []) ops))).
+Proof.
+  exists 4, 10, [ASet (Some 1) 999 20; ASet (Some 2) 7 20; ATick; ATick; ATick; ADrain]. intros H.
+  apply Permutation_sym in H. apply (Permutation_in (2, 7)) in H.
+  - vm_compute in H. repeat (destruct H as [H|H]; [discriminate H|]). exact H.
+  - vm_compute. right. left. reflexivity.
+Qed.
